@@ -11,6 +11,33 @@ NOTES = {   # seeded changes that the checks missed when first evaluated, and wh
     "C15-m2": "missed at first (UnicodeEncodeError for a non-ASCII .string); non-ASCII strings added to the program generator and to the injected faults",
     "C11-m2": "missed at first (needs a hit during the warm-up of a >=4-way PLRU set, then a return to the first block); added the threaded-code generator that produces arbitrary fetch-block sequences",
     "C12-m2": "missed at first (dirty state survives reset(); needs allocation, reset, miss into the same way); reset() added as an operation of the cache histories (model, implementation, references)",
+    "C01-m5": "round 3; missed at first (print-string ecall truncates at byte 0x80): string bytes now come from a boundary set (0x7F, 0x80, 0x81, 0xFF)",
+    "C01-m6": "round 3; run() gives up after 10^6 cycles: a life-cycle matter — C13 got the slice long-run (a 1.02 million cycle countdown through run()); C01 itself only uses step()",
+    "C03-m6": "round 3; missed at first (print-string ecall reads the backing store, not the cache): programs now store characters and print them (itoa style)",
+    "C04-m5": "round 3; missed at first (tokenisation cache shared by the RISC-V and TOY parsers): 10% of the cases let the OTHER ISA's parser see the same lines first in the same process",
+    "C04-m6": "round 3; missed at first (label-form jal rejected beyond 4 KiB): one case in 40 is a FAR program (jal across > 1024 instructions, both directions)",
+    "C05-m5": "round 3; detection was seed-dependent (stale dirty blocks survive reset): the element checks now also run on a simulation that has RUN another program with a tiny write-back cache, and verify every declared byte afterwards",
+    "C05-m6": "round 3; missed at first (element offset folded into a 12-bit immediate): long variables whose element offsets cross 2047/2048 and 4095/4096",
+    "C06-m5": "round 3; reload without a step in between keeps the old image: a life-cycle matter, caught by C13 (reload = fresh); C06 itself starts from images",
+    "C06-m6": "round 3; missed at first (one instruction object per opcode shared by all simulations): a second live simulation is stepped between the operations of the observed one (C01, C02, C06)",
+    "C07-m6": "round 3; the D1 defect re-introduced: jalr with a base at the top of the 32-bit range now appears in every random program generator",
+    "C08-m5": "round 3; a reload in mid-run silently switches hazard detection back on: RISC-V life-cycle cases now carry the hazard flag and reload in mid-run (caught by C13 as a model/implementation disagreement)",
+    "C08-m6": "round 3; caught by the cycle-by-cycle correspondence only (a taken self-branch hangs the reference interpreter, so no direct witness)",
+    "C09-m6": "round 3; missed at first (reset() skipped while the counters are still zero): histories may begin with a quiet first life of uncounted reads followed by reset()",
+    "C10-m5": "round 3; missed at first (reset() keeps the policy state): reset() inside the per-set policy histories, followed by a check of the initial state",
+    "C11-m5": "round 3; missed at first (penalty of a completed fetch dropped when the same step faults): the per-step law cycles = 1 + penalty x misses is checked up to and including the faulting step, on programs that may fault",
+    "C11-m6": "round 3; missed at first (block fill stops at the first empty word): slice icache-images — instruction memories that do not start at a block boundary or have gaps inside a block",
+    "C13-m5": "round 3; missed at first (has_started derived from the cycle counter): TOY life cycles with loads between whole steps, half steps and single cycles; a simulation that says it has not started must equal a fresh one",
+    "C13-m6": "round 3; missed at first (run() repairs next_cycle after an exception, step() does not): TOY simulations with 8/12/16-word memories whose runs fault; run() vs step() compared including the exception",
+    "C14-m5": "round 3; missed at first (listing cache survives write_instruction of the same mnemonic): every printing surface is read again after the stored instruction has been replaced",
+    "C14-m6": "round 3; missed at first (CLI listing truncates at 20 characters): all places that print an instruction (instruction memory, entries, CLI listing / status line / pipeline view, pipeline register) must denote it",
+    "C15-m5": "round 3; missed at first (a cached store to an unmapped address faults later, at another instruction): run-time fault programs now run with data caches and must blame the same instruction as without",
+    "C15-m6": "round 3; missed at first (a derived decimal text exceeds Python's digit limit): literals of 3600+ hex / 14000+ binary digits for li, la, .word, indices",
+    "C16-m5": "round 3; missed at first (an inspection edits a class-level table; both compared runs are polluted alike): every inspection batch is bracketed by a digest of all module- and class-level containers of the package; on a change the probes are re-evaluated in a fresh process",
+    "C16-m6": "round 3; missed at first (is_done() before load_program latches 'finished'): slice inspect-lifecycle inspects fresh simulations before and between loads",
+    "C17-m6": "round 3; missed at first (zero words hidden from the memory table under a write-back cache): the table histories now run with data caches",
+    "C18-m5": "round 3; missed at first (one-entry read memo survives reset()): reset() inside memory histories, followed by a repetition of the last access",
+    "C18-m6": "round 3; missed at first (only the last cell of a multi-cell read is range-checked on no-wrap memories): 2- and 4-cell accesses on the TOY memory starting below 0",
     "C03-m3": "missed at first (a flush hidden in the memory VIEW clears dirty bits, then a store hit, an eviction and a re-read); inspection calls added as an operation of the cache histories",
     "C08-m3": "missed at first by C08 (stall survives a flush when an ecall sits directly behind a jump; needs ecall adjacency); C08 got the exhaustive hazard alphabet with the flag off, generators got bare ecalls",
     "C08-m4": "missed at first by C08 (ecall drains only behind register-writing predecessors: store; store; ecall); same strengthening as C08-m3",
